@@ -9,6 +9,10 @@ import (
 //
 // XXX uid-in-cache = uid - 1
 func SetUMoney(uid ptttype.UID, money int32) (int32, error) {
+	if uid < 1 || uid > ptttype.MAX_USERS {
+		return -1, ErrInvalidUID
+	}
+
 	uidInCache := uid.ToUIDInStore()
 	Shm.Shm.Money[uidInCache] = money
 
